@@ -70,6 +70,56 @@ pub fn enchdr(args: &[&str]) -> String {
     out.join(" ")
 }
 
+/// encdec L1,L2,..  ->  lib=ok | lib=bad:<segmentation>:<what>
+/// "Decoding those bytes with the library yields the identical message": the encoded bytes (behind a valid
+/// greeting) are given to the library's decoder all at once, byte by byte, and split before the last byte.
+pub fn encdec(args: &[&str]) -> String {
+    let lens: Vec<usize> = args[0].split(',').map(|x| x.parse().unwrap()).collect();
+    let frames: Vec<Vec<u8>> = lens
+        .iter()
+        .enumerate()
+        .map(|(i, l)| (0..*l).map(|j| pat(i, j)).collect())
+        .collect();
+    let mut c = hooks::Codec::new();
+    let mut dst = BytesMut::new();
+    if let Err(e) = c.encode_message(zmsg(frames.clone()), &mut dst) {
+        return format!("lib=bad:encode:{}", e);
+    }
+    let mut stream = hooks::default_greeting_bytes();
+    stream.extend_from_slice(&dst);
+    let n = stream.len();
+    let segs: Vec<(&str, Vec<usize>)> = vec![
+        ("whole", vec![n]),
+        ("bytewise", if n <= 4096 { vec![1; n] } else { vec![64, 1, 1, 1, n - 67] }),
+        ("lastbyte", vec![n - 1, 1]),
+    ];
+    for (name, parts) in segs {
+        let mut d = hooks::Codec::new();
+        let mut buf = BytesMut::new();
+        let mut items = Vec::new();
+        let mut pos = 0usize;
+        for p in parts {
+            buf.extend_from_slice(&stream[pos..pos + p]);
+            pos += p;
+            loop {
+                match d.decode(&mut buf) {
+                    Ok(Some(i)) => items.push(item_str(&i)),
+                    Ok(None) => break,
+                    Err(e) => return format!("lib=bad:{}:error:{}", name, e),
+                }
+            }
+        }
+        let want = format!("M:{}", msg_hex(&frames));
+        if items.len() != 2 || !items[0].starts_with("G:") || items[1] != want {
+            return format!("lib=bad:{}:items={}", name, items.len());
+        }
+        if !buf.is_empty() {
+            return format!("lib=bad:{}:left={}", name, buf.len());
+        }
+    }
+    "lib=ok".to_string()
+}
+
 /// dec CH|CH|..  [eof]  [polls=N]  -> items.. (end|pend) depth=N
 /// Items are collected by polling the real FramedRead until it returns Pending or None, stopping
 /// after the first error unless `after=K` asks for K further polls.
